@@ -176,3 +176,72 @@ func VerifC13Race() {
 	vAssert(be.terminatesOf(c1) == 1, "old connection terminated once")
 	vCover("c13-race-end")
 }
+
+// stuckBackend keeps the displaced connection from terminating: the publication of its will
+// blocks until the gate opens (a backend that is slow to accept the will), so Closed() of
+// that client stays open and every contender's Setup runs into KillTimeout.
+type stuckBackend struct {
+	*evBackend
+	gate chan struct{}
+}
+
+func (s *stuckBackend) Publish(c *Client, msg *packet.Message, ack Ack) error {
+	if msg.Topic == "will" && c.Ref.(string) == "1" {
+		<-s.gate
+	}
+	return s.evBackend.Publish(c, msg, ack)
+}
+
+// VerifC13Stuck: the displaced connection (persistent session) does not finish terminating
+// (its will publication hangs). Contenders arrive one after the other (clean or not); each
+// one's wait runs into KillTimeout (the timer fires at quiescence) and is refused. While the
+// old connection is not fully terminated no contender may be accepted - in particular not
+// the second one, after the first refused contender has itself been cleaned up (its
+// Terminate runs with the same client id). Once the old connection does terminate, the next
+// contender is accepted and owns the session alone.
+func VerifC13Stuck() {
+	be := &stuckBackend{evBackend: &evBackend{recBackend: newRecBackend()}, gate: make(chan struct{})}
+	conn1 := newVConn(false)
+	c1 := NewClient(be, conn1)
+	c1.Ref = "1"
+	conn1.in <- mkConnect("x", false, &packet.Message{Topic: "will", Payload: []byte{9}})
+	vQuiesce()
+	vAssert(!conn1.isClosed() && be.activeClients["x"] == c1, "first connection accepted")
+	refs := []string{"2", "3"}
+	for i := 0; i < 2; i++ {
+		conn := newVConn(false)
+		c := NewClient(be, conn)
+		c.Ref = refs[i]
+		conn.in <- mkConnect("x", vBool("clean"), nil)
+		vQuiesce()
+		for k := 0; k < 3 && !conn.isClosed() && vFireTimers(); k++ { // KillTimeout elapses
+			vQuiesce()
+		}
+		vAssert(!chanClosed(c1.Closed()), "the displaced connection is still terminating")
+		accepted := false
+		for j := 0; j < conn.sentCount(); j++ {
+			if a, ok := conn.sentAt(j).(*packet.Connack); ok && a.ReturnCode == packet.ConnectionAccepted {
+				accepted = true
+			}
+		}
+		vAssert(!accepted, "no contender is accepted while the displaced connection is not fully terminated")
+		vAssert(conn.isClosed(), "a contender that cannot take over is disconnected")
+		vAssert(chanClosed(c.Closed()), "and fully cleaned up")
+	}
+	vCover("c13-stuck-refused")
+	close(be.gate)
+	vQuiesce()
+	vAssert(chanClosed(c1.Closed()), "the displaced connection terminates once its will is accepted")
+	vAssert(be.terminatesOf(c1) == 1 && be.publishesOf(c1, "will") == 1, "terminated once, will published once")
+	conn4 := newVConn(false)
+	c4 := NewClient(be, conn4)
+	c4.Ref = "4"
+	conn4.in <- mkConnect("x", false, nil)
+	vQuiesce()
+	vAssert(!conn4.isClosed() && be.activeClients["x"] == c4, "the next contender is accepted")
+	vAssert(c4.session.(*memorySession).activeClient == c4, "and owns the session")
+	ack, _ := conn4.sentAt(0).(*packet.Connack)
+	vAssert(ack != nil && ack.SessionPresent, "the persistent session survived the refused takeovers")
+	vAssert(vLive() == 4, "only the accepted connection's goroutines are left")
+	vCover("c13-stuck-end")
+}
